@@ -1,20 +1,25 @@
 #!/bin/bash
 # tools/muttest.sh <ID> <patch.diff> [quick|thorough]
 # Applies a patch to a scratch copy of /repo, builds the check's binary against it and runs it.
-# Prints the check's output; exit code is the check's (1 = the monitor fired). Cleans up after itself.
+# Prints the check's output; exit code is the check's (1 = the monitor fired).
+# The scratch copy lives in a per-group slot /tmp/mutslot-<group> that is re-synchronised from /repo
+# on every call (so the Go build cache is reused for unchanged packages); remove the slots with
+# `tools/muttest.sh --clean` when done.
 set -u
+if [ "${1:-}" = "--clean" ]; then rm -rf /tmp/mutslot-*; exit 0; fi
 ID="$1"; PATCH="$(readlink -f "$2")"; TIER="${3:-quick}"
 export GOFLAGS=-mod=mod GOPROXY=off
 unset GOTOOLCHAIN GOSUMDB 2>/dev/null || true
 V=/verif
 GROUP=$(awk -v id="$ID" '$1==id {print $2}' $V/harness/groups.txt)
 RACEFLAG=$(awk -v id="$ID" '$1==id {print $3}' $V/harness/groups.txt)
-S=$(mktemp -d /tmp/mut-$ID-XXXXXX)
-trap 'rm -rf "$S"' EXIT
-mkdir -p $S/repo $S/out
-rsync -a --exclude .git /repo/ $S/repo/
+S=/tmp/mutslot-$GROUP$RACEFLAG
+mkdir -p $S
+exec 8> $S/.lock; flock 8
+rm -rf $S/out; mkdir -p $S/repo $S/out
+rsync -a --delete --exclude .git /repo/ $S/repo/
 if ! (cd $S/repo && patch -p1 --no-backup-if-mismatch < "$PATCH" > $S/patch.log 2>&1); then
-  echo "MUTTEST: patch does not apply"; cat $S/patch.log; exit 3
+  echo "MUTTEST: patch does not apply"; head -5 $S/patch.log; exit 3
 fi
 cp $V/harness/go.mod $S/go.mod; cp $V/harness/go.sum $S/go.sum
 sed -i "s#=> /repo#=> $S/repo#" $S/go.mod
